@@ -191,7 +191,8 @@ def r2(F, R):
     if len(ah_names) != 1:
         raise Unverifiable(f"after-hook routine: {len(ah_names)}")
     ah = next(iter(ah_names))
-    tab = D.Deep(F, b, inline=False, max_paths=6000).run()
+    # only the failure type's own small methods are inlined (`scenario_failed.is_panicked()`)
+    tab = D.Deep(F, b, inline_only=lambda cb: (cb.impl or {}).get("self_adt") == EF and not (cb.impl or {}).get("trait"), max_paths=6000).run()
     if not tab or any(p.cut for p in tab):
         raise Unverifiable("attempt future: empty path table or a loop")
     efa = F.adts.get(("cucumber", EF))
